@@ -63,9 +63,12 @@ func checkCase(c Case) (*h.Failure, string) {
 	if res.Yields > 20000 {
 		return nil, "too-expensive" // the VM has no budget of its own: only run what the evaluator finishes quickly
 	}
-	vm := bcx.RunVM(prog)
+	vm := bcx.RunVM(prog, res.Yields)
+	if vm.Slow {
+		return nil, "vm-slow" // inside the instruction budget but over the wall-time limit: inconclusive
+	}
 	if vm.Hang {
-		return mk("vm-hang", fmt.Sprintf("the program ends on the evaluator after %d evaluation steps (%s) but the VM did not finish within 20 s", res.Yields, out), ""), "vm-hang"
+		return mk("vm-hang", fmt.Sprintf("the program ends on the evaluator after %d evaluation steps (%s) but the VM was still running after %d instructions (budget: 200000 + 2000 per evaluation step)", res.Yields, out, vm.Steps), ""), "vm-hang"
 	}
 	if c.Unsupported != "" {
 		if vm.CompileErr == nil {
